@@ -24,12 +24,13 @@ import (
 	simapp "github.com/KiraCore/sekai/app"
 	customante "github.com/KiraCore/sekai/app/ante"
 	custodytypes "github.com/KiraCore/sekai/x/custody/types"
+	recoverytypes "github.com/KiraCore/sekai/x/recovery/types"
 	sdk "github.com/cosmos/cosmos-sdk/types"
 	banktypes "github.com/cosmos/cosmos-sdk/x/bank/types"
 	minttypes "github.com/cosmos/cosmos-sdk/x/mint/types"
 )
 
-const N = 6
+const N = 8 // accounts 6 and 7 have no account at the start: targets of address rotation
 const denom = "ukex"
 
 var denomNames = []string{"ukex", "uusd", "uzzz"} // codes 0,1,2 (alphabetical order = code order)
@@ -182,7 +183,7 @@ func (w *world) observe(ctx sdk.Context) snapshot {
 			for _, k := range ks {
 				r := p.Record[k]
 				t := r.Transaction
-				xs = append(xs, hx.Pair(hx.Str(w.hashTok(k)), fmt.Sprintf("mkTx %s %s %s %s %s %s", hx.Z(w.code(t.ToAddress)), coqSdkCoins(t.Amount),
+				xs = append(xs, hx.Pair(hx.Str(w.hashTok(k)), fmt.Sprintf("mkTx %s %s %s %s %s %s %s", hx.Z(w.code(t.FromAddress)), hx.Z(w.code(t.ToAddress)), coqSdkCoins(t.Amount),
 					hx.Str(w.token(t.Password)), coqSdkCoins(t.Reward), hx.ZU(r.Votes), hx.B(r.Confirmed))))
 			}
 			o.Pool = "(Some " + hx.List(xs) + ")"
@@ -298,7 +299,12 @@ type op struct {
 	Pw      string   `json:"password,omitempty"`
 	Rew     []cn     `json:"reward,omitempty"`
 	TxBytes string   `json:"tx_bytes,omitempty"`
-	Filler  bool     `json:"filler_first,omitempty"`
+	Filler  int      `json:"filler,omitempty"` // 1: an unrelated message first (it is also the fee payer), 2: last, 3: both
+	Nanos   int64    `json:"block_time_nanos,omitempty"`
+	NewAddr int      `json:"rotate_to,omitempty"`
+	Proof   string   `json:"recovery_proof,omitempty"`
+	Ok      bool     `json:"rotation_preconditions_hold,omitempty"`
+	TxID    int      `json:"tx"`
 	Outcome string   `json:"outcome"`
 	Err     string   `json:"err,omitempty"`
 	Note    string   `json:"note,omitempty"`
@@ -417,17 +423,29 @@ func (w *world) build(o *op, k kp) (sdk.Msg, string) {
 	case "multisend":
 		return banktypes.NewMsgMultiSend([]banktypes.Input{banktypes.NewInput(sg, sdkCoins(o.Amt))}, []banktypes.Output{banktypes.NewOutput(w.addrs[o.To], sdkCoins(o.Amt))}),
 			fmt.Sprintf("OMulti %d %d %s", o.Signer, o.To, coqCoins(o.Amt))
+	case "rotate":
+		return &recoverytypes.MsgRotateRecoveryAddress{FeePayer: w.addrs[N].String(), Address: sg.String(), Recovery: w.addrs[o.NewAddr].String(), Proof: o.Proof},
+			fmt.Sprintf("ORotate %d %d %s", o.Signer, o.NewAddr, hx.B(o.Ok))
 	}
 	panic("unknown kind " + o.Kind)
 }
 
 // exec runs ante + ValidateBasic + handler for one transaction atomically
-func (w *world) exec(ctx sdk.Context, deco customante.CustodyDecorator, o *op, msg sdk.Msg) {
+// exec runs one transaction: the decorator over all its messages, then ValidateBasic + handler per message;
+// all or nothing.  after(i) is called after the handler of the i-th real message (inside the transaction).
+func (w *world) exec(ctx sdk.Context, deco customante.CustodyDecorator, os []*op, real []sdk.Msg, after func(i int, c sdk.Context)) {
+	o := os[0]
 	c, write := ctx.CacheContext()
 	c = c.WithTxBytes([]byte(o.TxBytes))
-	msgs := []sdk.Msg{msg}
-	if o.Filler {
-		msgs = []sdk.Msg{banktypes.NewMsgSend(w.addrs[N], w.addrs[N+1], coins(1)), msg}
+	msgs := append([]sdk.Msg{}, real...)
+	fill := func(a int64) sdk.Msg { return banktypes.NewMsgSend(w.addrs[N], w.addrs[N+1], coins(a)) }
+	first := 0
+	if o.Filler&1 != 0 {
+		msgs = append([]sdk.Msg{fill(1)}, msgs...)
+		first = 1
+	}
+	if o.Filler&2 != 0 {
+		msgs = append(msgs, fill(2))
 	}
 	var err error
 	next := func(ctx sdk.Context, tx sdk.Tx, simulate bool) (sdk.Context, error) { return ctx, nil }
@@ -436,7 +454,7 @@ func (w *world) exec(ctx sdk.Context, deco customante.CustodyDecorator, o *op, m
 		if err != nil {
 			return
 		}
-		for _, m := range msgs {
+		for i, m := range msgs {
 			if err = m.ValidateBasic(); err != nil {
 				return
 			}
@@ -448,41 +466,50 @@ func (w *world) exec(ctx sdk.Context, deco customante.CustodyDecorator, o *op, m
 			if _, err = h(c, m); err != nil {
 				return
 			}
+			if i >= first && i-first < len(real) {
+				after(i-first, c)
+			}
 		}
 	})
-	switch {
-	case p != "":
-		o.Outcome, o.Err = "panic", p
-	case err != nil:
-		o.Outcome, o.Err = "rejected", err.Error()
-	default:
-		o.Outcome = "ok"
-		write()
+	for _, x := range os {
+		switch {
+		case p != "":
+			x.Outcome, x.Err = "panic", p
+		case err != nil:
+			x.Outcome, x.Err = "rejected", err.Error()
+		default:
+			x.Outcome = "ok"
+		}
+		if len(x.Err) > 160 {
+			x.Err = x.Err[:160]
+		}
 	}
-	if len(o.Err) > 160 {
-		o.Err = o.Err[:160]
+	if p == "" && err == nil {
+		write()
 	}
 }
 
 // ---------------------------------------------------------------- histories
 type hist struct {
-	w      *world
-	r      *hx.Rng
-	ctx    sdk.Context
-	deco   customante.CustodyDecorator
-	dist   hx.Counter
-	id     int
-	label  string
-	prev   snapshot
-	steps  []string
-	ops    []op
-	sec    [N]int // index of the secret whose digest is (believed to be) the current key of account i; -1 none
-	nsec   int
-	sends  []string // tx hashes of the custody sends of this history
-	sendBy []int
-	pws    []string
-	txn    int
-	now    int64 // block time of the next transaction
+	w       *world
+	r       *hx.Rng
+	ctx     sdk.Context
+	deco    customante.CustodyDecorator
+	dist    hx.Counter
+	id      int
+	label   string
+	prev    snapshot
+	steps   []string
+	ops     []op
+	sec     [N]int // index of the secret whose digest is (believed to be) the current key of account i; -1 none
+	nsec    int
+	sends   []string // tx hashes of the custody sends of this history
+	sendBy  []int
+	pws     []string
+	txn     int
+	now     int64 // block time of the next transaction
+	fill    int   // filler placement used by the scripted steps of this history
+	rotated map[int]bool
 }
 
 func secret(i int) string { return fmt.Sprintf("secret-%d", i) }
@@ -500,28 +527,64 @@ func (h *hist) txBytes() string {
 	}
 }
 
-// do executes one transaction on the real code and records operation, outcome and state patch
-func (h *hist) do(o op, k kp) *op {
+type pend struct {
+	o op
+	k kp
+}
+
+// do executes one single-message transaction
+func (h *hist) do(o op, k kp) *op { return h.doTx([]pend{{o, k}})[0] }
+
+// doTx executes one transaction of one or more messages on the real code and records per message the
+// operation, the outcome of the transaction and the state patch after the message
+func (h *hist) doTx(ps []pend) []*op {
 	h.txn++
-	if o.TxBytes == "" {
-		o.TxBytes = h.txBytes()
-	}
+	tb := h.txBytes()
+	filler, nanos := 0, int64(0)
 	if h.r != nil {
-		o.Filler = h.r.Chance(15)
+		if h.r.Chance(30) {
+			filler = 1 + h.r.Intn(3)
+		}
+		if h.r.Chance(30) {
+			nanos = []int64{1, 500000000, 999999999}[h.r.Intn(3)]
+		}
+		if h.r.Chance(30) {
+			h.now += []int64{1, 30, 89, 90, 600, 3599, 3600, 4000}[h.r.Intn(8)]
+		}
+	} else {
+		filler = h.fill
 	}
-	if h.r != nil && h.r.Chance(30) {
-		h.now += []int64{1, 30, 89, 90, 600, 3599, 3600, 4000}[h.r.Intn(8)]
+	var os []*op
+	var msgs []sdk.Msg
+	var coqs []string
+	for i := range ps {
+		o := &ps[i].o
+		if o.TxBytes == "" {
+			o.TxBytes = tb
+		}
+		o.Filler, o.Nanos, o.Now, o.TxID = filler, nanos, h.now, h.txn
+		msg, coq := h.w.build(o, ps[i].k)
+		os, msgs, coqs = append(os, o), append(msgs, msg), append(coqs, coq)
 	}
-	o.Now = h.now
-	msg, coq := h.w.build(&o, k)
-	h.w.exec(h.ctx.WithBlockTime(time.Unix(h.now, 0).UTC()), h.deco, &o, msg)
-	cur := h.w.observe(h.ctx)
-	code := map[string]int{"ok": 0, "rejected": 1, "panic": 2}[o.Outcome]
-	h.steps = append(h.steps, fmt.Sprintf("(%s, %d, %s)", coq, code, hx.List(diff(h.prev, cur))))
-	h.prev = cur
-	h.dist.Inc(o.Kind + ":" + o.Outcome)
-	h.ops = append(h.ops, o)
-	return &h.ops[len(h.ops)-1]
+	snaps := make([]snapshot, len(ps))
+	h.w.exec(h.ctx.WithBlockTime(time.Unix(h.now, nanos).UTC()), h.deco, os, msgs, func(i int, c sdk.Context) { snaps[i] = h.w.observe(c) })
+	code := map[string]int{"ok": 0, "rejected": 1, "panic": 2}[os[0].Outcome]
+	var res []*op
+	for i, o := range os {
+		cur := h.prev
+		if code == 0 {
+			cur = snaps[i]
+		}
+		h.steps = append(h.steps, fmt.Sprintf("(%d, %s, %d, %s)", h.txn, coqs[i], code, hx.List(diff(h.prev, cur))))
+		h.prev = cur
+		h.dist.Inc(o.Kind + ":" + o.Outcome)
+		if len(ps) > 1 {
+			h.dist.Inc("multi_message_tx:" + o.Kind + ":" + o.Outcome)
+		}
+		h.ops = append(h.ops, *o)
+		res = append(res, &h.ops[len(h.ops)-1])
+	}
+	return res
 }
 
 // keyed runs a settings message; right: OldKey is the preimage of the signer's own current key
@@ -578,6 +641,48 @@ func (h *hist) bankc(kind string, s, to int, amt []cn) *op {
 }
 func (h *hist) tick(dt int64) { h.now += dt }
 
+func proofOf(i int) string { return hex.EncodeToString([]byte(fmt.Sprintf("recovery-proof-%d", i))) }
+
+// registerSecrets gives accounts 0, 1 and 2 a recovery secret (x/recovery; not part of the modelled alphabet:
+// it touches neither custody nor balances)
+func (h *hist) registerSecrets() {
+	for _, i := range []int{0, 1, 2} {
+		bz, _ := hex.DecodeString(proofOf(i))
+		d := sha256.Sum256(bz)
+		m := &recoverytypes.MsgRegisterRecoverySecret{Address: h.w.addrs[i].String(), Challenge: hex.EncodeToString(d[:]), Nonce: "00"}
+		if _, err := h.w.app.MsgServiceRouter().Handler(m)(h.ctx, m); err != nil {
+			panic(err)
+		}
+	}
+}
+
+// rotate moves account a to the fresh address nw by x/recovery MsgRotateRecoveryAddress (fee paid by an outsider)
+func (h *hist) rotate(a, nw int, rightProof bool) *op {
+	proof := proofOf(a)
+	if !rightProof {
+		proof = proofOf(5)
+	}
+	w := h.w
+	ok := rightProof && a <= 2 && w.app.AccountKeeper.HasAccount(h.ctx, w.addrs[a]) && !w.app.AccountKeeper.HasAccount(h.ctx, w.addrs[nw]) &&
+		w.app.RecoveryKeeper.GetRotationHistory(h.ctx, w.addrs[nw].String()).Rotated == ""
+	res := h.do(op{Kind: "rotate", Signer: a, NewAddr: nw, Proof: proof, Ok: ok}, kp{})
+	if res.Outcome == "ok" {
+		h.rotated[a] = true
+		h.sec[nw] = h.sec[a]
+	}
+	return res
+}
+
+// keyedPend prepares a settings message for a transaction of several messages (the key bookkeeping is left alone)
+func (h *hist) keyedPend(o op, right bool) pend {
+	old := "wrong-secret"
+	if right && h.sec[o.Signer] >= 0 {
+		old = secret(h.sec[o.Signer])
+	}
+	h.nsec++
+	return pend{o, kp{Old: old, New: sha(secret(h.nsec % 12))}}
+}
+
 // guard sets up account v by construction: record created disabled, lists filled, then enabled
 func (h *hist) guard(v int, mode uint64, pwd, wl, lim bool, custs, white []int, cap int64) {
 	h.keyed(op{Kind: "create_custody", Signer: v, Set: []uint64{0, mode, b2u(pwd), b2u(wl), b2u(lim)}}, "", true, "")
@@ -593,7 +698,7 @@ func (h *hist) guard(v int, mode uint64, pwd, wl, lim bool, custs, white []int, 
 	h.keyed(op{Kind: "create_custody", Signer: v, Set: []uint64{1, mode, b2u(pwd), b2u(wl), b2u(lim)}}, "", true, "")
 }
 
-var modes = []uint64{0, 1, 34, 50, 51, 67, 100, 100, 150}
+var modes = []uint64{0, 1, 34, 50, 51, 67, 100, 100, 150, 18446744073709551615}
 var settingKinds = []string{"create_custody", "disable_custody", "drop_custody", "add_custodians", "remove_custodians", "drop_custodians",
 	"add_whitelist", "remove_whitelist", "drop_whitelist", "add_limits", "remove_limits", "drop_limits"}
 
@@ -620,7 +725,7 @@ func settingOp(kind string, signer int) op {
 
 // ---- directed histories: every settings message type x every way of naming the guarded account;
 // every order of approve / decline / confirm by custodians and strangers; every send path
-type variant struct{ custOnly, lower, pwd, nilmap, limits bool }
+type variant struct{ custOnly, lower, pwd, nilmap, limits, rot bool }
 
 // probe: one short history per repaired place, on the real code
 func probe(newHist func(label string) *hist) variant {
@@ -648,6 +753,14 @@ func probe(newHist func(label string) *hist) variant {
 	h = newHist("probe")
 	h.guard(V, 50, false, false, true, []int{}, nil, 1000)
 	v.limits = h.bank("bank_send", V, 5, 100).Outcome == "ok"
+	h = newHist("probe")
+	h.guard(V, 100, false, false, false, []int{2, 3, 4}, nil, -1)
+	x = h.send(V, 5, 1000, 1, false, []int64{600}).Hash
+	h.approve(2, V, x)
+	h.rotate(V, 6, true)
+	before = h.prev
+	h.approve(2, 6, x)
+	v.rot = len(diff(before, h.prev)) == 0
 	return v
 }
 
@@ -757,6 +870,291 @@ func directed(newHist func(label string) *hist, finish func(*hist), vr variant) 
 		x = h.send(V, 5, 1000, 1, true, []int64{600}).Hash
 		h.confirm(V, V, x, pword(1))
 		h.approve(2, V, x)
+		finish(h)
+	}
+	// ---- thresholds at floor / ceiling for 1..4 custodians: approvals one by one, then plain sends
+	allc := []int{2, 3, 4, 1}
+	for n := 1; n <= 4; n++ {
+		for _, mode := range []uint64{1, 25, 26, 33, 34, 49, 50, 51, 66, 67, 75, 76, 99, 100, 101, 18446744073709551615} {
+			h := newHist(fmt.Sprintf("grid/n%d/mode%d", n, mode))
+			h.guard(V, mode, false, false, false, allc[:n], nil, -1)
+			x := h.send(V, 5, 1000, 1, false, []int64{int64(200*n + n - 1)}).Hash
+			for _, c := range allc[:n] {
+				h.approve(c, V, x)
+			}
+			h.bank("bank_send", V, 5, 7)
+			finish(h)
+		}
+	}
+	// ---- the configuration is edited while a transfer is pooled / between approvals
+	for sc := 0; sc < 16; sc++ {
+		h := newHist(fmt.Sprintf("edits/%d", sc))
+		h.guard(V, 100, false, false, false, []int{2, 3}, nil, -1)
+		x := h.send(V, 5, 1000, 1, false, []int64{601}).Hash
+		set := func(en, mode, pw uint64) {
+			h.keyed(op{Kind: "create_custody", Signer: V, Set: []uint64{en, mode, pw, 0, 0}}, "", true, "")
+		}
+		switch sc {
+		case 0: // a custodian is removed after his vote
+			h.approve(2, V, x)
+			h.keyed(op{Kind: "remove_custodians", Signer: V, Rem: 2}, "", true, "")
+			h.approve(3, V, x)
+		case 1: // a removed custodian votes; he is added again and votes
+			h.keyed(op{Kind: "remove_custodians", Signer: V, Rem: 3}, "", true, "")
+			h.approve(3, V, x)
+			h.approve(2, V, x)
+			h.keyed(op{Kind: "add_custodians", Signer: V, Adds: []int{3}}, "", true, "")
+			h.approve(3, V, x)
+		case 2: // a custodian is added between the approvals
+			h.approve(2, V, x)
+			h.keyed(op{Kind: "add_custodians", Signer: V, Adds: []int{4}}, "", true, "")
+			h.approve(3, V, x)
+			h.approve(4, V, x)
+		case 3: // the list is dropped between the approvals, and filled again
+			h.approve(2, V, x)
+			h.keyed(op{Kind: "drop_custodians", Signer: V}, "", true, "")
+			h.approve(3, V, x)
+			h.decline(3, V, x)
+			h.keyed(op{Kind: "add_custodians", Signer: V, Adds: []int{4, 3}}, "", true, "")
+			h.approve(3, V, x)
+			h.approve(4, V, x)
+		case 4: // the share is lowered while the transfer is pooled
+			h.approve(2, V, x)
+			set(1, 50, 0)
+			h.approve(2, V, x)
+			h.approve(3, V, x)
+		case 5: // the share is raised above what can be reached, then lowered
+			set(1, 101, 0)
+			h.approve(2, V, x)
+			h.approve(3, V, x)
+			set(1, 100, 0)
+			h.confirm(4, V, x, pword(1))
+		case 6: // a password is switched on after the request
+			h.approve(2, V, x)
+			set(1, 100, 1)
+			h.approve(3, V, x)
+			h.confirm(5, V, x, "wrong-pw")
+			h.confirm(5, V, x, sha(pword(1)))
+		case 7: // custody is switched off (no key is asked for) and one vote pays out
+			h.keyed(op{Kind: "disable_custody", Signer: V}, "", false, "")
+			h.approve(2, V, x)
+		case 8: // repetitions and permutations in the address list
+			h.keyed(op{Kind: "add_custodians", Signer: V, Adds: []int{3, 2, 2, 4, 3}}, "", true, "")
+			h.approve(2, V, x)
+			h.approve(3, V, x)
+			h.approve(4, V, x)
+		case 9: // declines only; decline then approve by the same custodian; approve then decline
+			h.decline(2, V, x)
+			h.approve(2, V, x)
+			h.approve(3, V, x)
+			h.decline(3, V, x)
+			h.decline(4, V, x)
+		case 10: // the owner and the recipient are custodians themselves
+			h.keyed(op{Kind: "add_custodians", Signer: V, Adds: []int{V, 5}}, "", true, "")
+			h.approve(V, V, x)
+			h.approve(5, V, x)
+			h.approve(2, V, x)
+			h.approve(3, V, x)
+		case 11: // every spelling of the hash
+			h.approve(2, V, strings.ToUpper(x))
+			h.approve(2, V, x)
+			h.approve(2, V, upperVariant(x))
+			h.decline(2, V, x[:32]+strings.ToUpper(x[32:]))
+			h.approve(3, V, " "+x)
+			h.approve(3, V, strings.ToUpper(x[:1])+x[1:])
+		case 12: // the whitelist and limits are edited while the transfer is pooled
+			h.keyed(op{Kind: "add_whitelist", Signer: V, Adds: []int{4}}, "", true, "")
+			h.keyed(op{Kind: "create_custody", Signer: V, Set: []uint64{1, 100, 0, 1, 0}}, "", true, "")
+			h.approve(2, V, x)
+			h.approve(3, V, x)
+		case 13: // a second and a third request; stale approvals
+			y := h.send(V, 4, 10, 2, false, []int64{400}).Hash
+			h.approve(2, V, x)
+			h.approve(2, V, y)
+			z := h.sendc(V, 5, []cn{{"ukex", 10}, {"uusd", 20}, {"uzzz", 3}}, 3, false, uk(400)).Hash
+			h.approve(3, V, y)
+			h.approve(2, V, z)
+			h.approve(3, V, z)
+		case 14: // the custody record is dropped and created again while the transfer is pooled
+			h.approve(2, V, x)
+			h.keyed(op{Kind: "drop_custody", Signer: V}, "", false, "")
+			h.bank("bank_send", V, 5, 5)
+			set(1, 100, 0)
+			h.approve(3, V, x)
+		case 15: // not enough funds at the pay-out, then again after a refund
+			h.bank("multisend", V, 4, 999000)
+			h.approve(2, V, x)
+			h.approve(3, V, x)
+			h.bank("bank_send", 1, V, 5000)
+			h.approve(3, V, x)
+		}
+		finish(h)
+	}
+	// ---- the password path: wrong, right, replayed, by strangers, before and after the approvals
+	for sc := 0; sc < 6; sc++ {
+		h := newHist(fmt.Sprintf("password/%d", sc))
+		cs := []int{2}
+		if sc >= 4 {
+			cs = []int{}
+		}
+		h.guard(V, 100, true, false, false, cs, nil, -1)
+		x := h.send(V, 5, 1000, 1, true, []int64{400}).Hash
+		switch sc {
+		case 0:
+			h.confirm(4, V, x, "wrong-pw")
+			h.confirm(4, V, x, "")
+			h.confirm(4, V, x, sha(pword(1)))
+			h.confirm(4, V, x, pword(1))
+			h.confirm(5, V, x, pword(1))
+			h.approve(2, V, x)
+			h.confirm(V, V, x, pword(1))
+		case 1:
+			h.approve(2, V, x)
+			h.confirm(V, V, strings.ToUpper(x), pword(1))
+			h.confirm(V, V, x, pword(1))
+		case 2: // the password of another request
+			y := h.send(V, 5, 10, 2, true, []int64{400}).Hash
+			h.confirm(V, V, y, pword(1))
+			h.confirm(V, V, x, pword(2))
+			h.confirm(V, V, y, pword(2))
+			h.approve(2, V, y)
+		case 3: // password switched off after the request
+			h.keyed(op{Kind: "create_custody", Signer: V, Set: []uint64{1, 100, 0, 0, 0}}, "", true, "")
+			h.approve(2, V, x)
+		case 4, 5: // no custodians: the password alone
+			h.confirm(5, V, x, "wrong-pw")
+			if sc == 5 {
+				h.approve(2, V, x)
+			}
+			h.confirm(5, V, x, pword(1))
+			h.confirm(5, V, x, pword(1))
+		}
+		finish(h)
+	}
+	// ---- address rotation by x/recovery: the custody records and the funds move to a fresh address
+	for sc := 0; sc < 8; sc++ {
+		h := newHist(fmt.Sprintf("rotation/%d", sc))
+		switch sc {
+		case 0: // a guarded account without pending transfer; the new address is guarded as the old one was
+			h.guard(V, 100, false, true, false, []int{2, 3}, []int{5}, 1000)
+			h.rotate(V, 6, false)
+			h.rotate(V, 6, true)
+			h.bank("bank_send", 6, 5, 100)
+			h.bank("bank_send", V, 5, 1)
+			x := h.send(6, 5, 1000, 1, false, []int64{400}).Hash
+			h.approve(2, 6, x)
+			h.approve(3, 6, x)
+			h.keyed(op{Kind: "add_whitelist", Signer: 6, Adds: []int{4}}, "", true, "")
+		case 1: // a transfer is pending: the votes cast before the rotation
+			h.guard(V, 100, false, false, false, []int{2, 3}, nil, -1)
+			x := h.send(V, 5, 1000, 1, false, []int64{400}).Hash
+			h.approve(2, V, x)
+			h.rotate(V, 6, true)
+			h.approve(2, 6, x)
+			h.approve(3, 6, x)
+			h.bank("bank_send", 1, V, 2000)
+			h.approve(3, 6, x)
+			h.approve(2, V, x)
+		case 2: // pending with password: confirmed before, approved after the rotation
+			h.guard(V, 50, true, false, false, []int{2, 3}, nil, -1)
+			x := h.send(V, 5, 1000, 1, true, []int64{400}).Hash
+			h.confirm(V, V, x, pword(1))
+			h.decline(3, V, x)
+			h.rotate(V, 6, true)
+			h.decline(3, 6, x)
+			h.bank("bank_send", 1, V, 2000)
+			h.approve(2, 6, x)
+		case 3: // a custodian rotates: the lists that name him are not rewritten
+			h.guard(V, 100, false, false, false, []int{2, 3}, nil, -1)
+			x := h.send(V, 5, 1000, 1, false, []int64{400}).Hash
+			h.rotate(2, 7, true)
+			h.approve(7, V, x)
+			h.approve(2, V, x)
+			h.approve(3, V, x)
+		case 4: // whitelist without custodians, limits; the target exists already / was used
+			h.guard(V, 50, false, true, true, []int{}, []int{5}, 1000)
+			h.rotate(V, 5, true)
+			h.bank("bank_send", 1, 6, 5)
+			h.rotate(V, 6, true)
+			h.rotate(V, 7, true)
+			h.bank("bank_send", 7, 4, 10)
+			h.bank("multisend", 7, 4, 10)
+			h.rotate(V, 6, true)
+		case 5: // an unguarded account, an account without recovery secret
+			h.rotate(1, 6, true)
+			h.rotate(3, 7, true)
+			h.bank("bank_send", 6, 5, 10)
+		case 6: // both owners rotate; disabled custody
+			h.keyed(op{Kind: "create_custody", Signer: V, Set: []uint64{0, 50, 1, 1, 0}}, "", true, "")
+			h.keyed(op{Kind: "add_custodians", Signer: V, Adds: []int{2}}, "", true, "")
+			h.guard(A, 67, false, false, false, []int{2, 3, 4}, nil, -1)
+			h.rotate(A, 7, true)
+			h.rotate(V, 6, true)
+			h.bank("bank_send", 7, 5, 10)
+			h.bank("bank_send", 6, 5, 10)
+		case 7: // rotation in the middle of a vote with three custodians, the old address is used again
+			h.guard(V, 67, false, false, false, []int{2, 3, 4}, nil, -1)
+			x := h.send(V, 5, 1000, 1, false, []int64{600}).Hash
+			h.approve(2, V, x)
+			h.approve(3, V, x)
+			h.rotate(V, 6, true)
+			h.bank("bank_send", 1, V, 5000)
+			h.approve(2, 6, x) // the vote cast before the rotation is cast again: paid again, counted again, pays out
+			h.guard(V, 100, false, false, false, []int{3}, nil, -1)
+			h.approve(4, 6, x)
+		}
+		finish(h)
+	}
+	// ---- transactions of several custody / bank messages: the decorator looks at all of them
+	for sc := 0; sc < 10; sc++ {
+		h := newHist(fmt.Sprintf("multimsg/%d", sc))
+		h.guard(V, 100, false, true, false, []int{2, 3}, []int{5}, -1)
+		bk := func(kind string, s, to int, a int64) pend {
+			return pend{op{Kind: kind, Signer: s, To: to, Amt: uk(a)}, kp{}}
+		}
+		switch sc {
+		case 0: // a settings message with the right key, then a plain send of the same account
+			h.doTx([]pend{h.keyedPend(op{Kind: "add_whitelist", Signer: V, Adds: []int{4}}, true), bk("bank_send", V, 5, 10)})
+		case 1: // the custodians are dropped and the coins sent in one transaction
+			h.doTx([]pend{h.keyedPend(op{Kind: "drop_custodians", Signer: V}, true), bk("bank_send", V, 5, 10)})
+			h.doTx([]pend{h.keyedPend(op{Kind: "disable_custody", Signer: V}, false), bk("bank_send", V, 4, 10)})
+		case 2: // a custody send, then a plain send
+			h.doTx([]pend{{op{Kind: "custody_send", Signer: V, To: 5, Amt: uk(10), Pw: sha(pword(1)), Rew: uk(400)}, kp{}}, bk("bank_send", V, 5, 10)})
+			h.doTx([]pend{{op{Kind: "custody_send", Signer: V, To: 5, Amt: uk(10), Pw: sha(pword(1)), Rew: uk(400)}, kp{}}, bk("multisend", V, 4, 10)})
+		case 3: // two plain sends, the second one to an address outside the whitelist
+			h.keyed(op{Kind: "drop_custodians", Signer: V}, "", true, "")
+			h.keyed(op{Kind: "add_custodians", Signer: V, Adds: []int{}}, "", true, "")
+			h.doTx([]pend{bk("bank_send", V, 5, 10), bk("bank_send", V, 4, 10)})
+			h.doTx([]pend{bk("bank_send", V, 5, 10), bk("bank_send", V, 5, 20)})
+		case 4: // both custodians approve in one transaction
+			x := h.send(V, 5, 1000, 1, false, []int64{400}).Hash
+			h.doTx([]pend{{op{Kind: "approve", Signer: 2, Target: V, Hash: x}, kp{}}, {op{Kind: "approve", Signer: 3, Target: V, Hash: x}, kp{}}})
+		case 5: // one custodian approves twice in one transaction
+			x := h.send(V, 5, 1000, 1, false, []int64{400}).Hash
+			h.doTx([]pend{{op{Kind: "approve", Signer: 2, Target: V, Hash: x}, kp{}}, {op{Kind: "approve", Signer: 2, Target: V, Hash: strings.ToUpper(x)}, kp{}}})
+			h.doTx([]pend{{op{Kind: "approve", Signer: 3, Target: V, Hash: x}, kp{}}, {op{Kind: "approve", Signer: 4, Target: V, Hash: x}, kp{}}})
+		case 6: // two requests in one transaction carry the same hash
+			h.doTx([]pend{{op{Kind: "custody_send", Signer: V, To: 5, Amt: uk(10), Pw: sha(pword(1)), Rew: uk(400)}, kp{}},
+				{op{Kind: "custody_send", Signer: V, To: 4, Amt: uk(20), Pw: sha(pword(1)), Rew: uk(400)}, kp{}}})
+			x := h.ops[len(h.ops)-1].Hash
+			h.approve(2, V, x)
+			h.approve(3, V, x)
+		case 7: // a stranger's message first, then the guarded account's plain send; and the other way round
+			h.doTx([]pend{bk("bank_send", 1, 5, 10), bk("bank_send", V, 5, 10)})
+			h.doTx([]pend{bk("bank_send", V, 5, 10), bk("bank_send", 1, 5, 10)})
+			h.doTx([]pend{bk("multisend", 1, 5, 10), bk("multisend", V, 5, 10)})
+		case 8: // custodians are added and coins sent by an account that had none
+			h.keyed(op{Kind: "drop_custodians", Signer: V}, "", true, "")
+			h.keyed(op{Kind: "add_custodians", Signer: V, Adds: []int{}}, "", true, "")
+			h.doTx([]pend{h.keyedPend(op{Kind: "add_custodians", Signer: V, Adds: []int{2}}, true), bk("bank_send", V, 5, 10)})
+			h.bank("bank_send", V, 5, 10)
+		case 9: // a confirmation and the last approval together; the second message fails: nothing remains
+			h.keyed(op{Kind: "create_custody", Signer: V, Set: []uint64{1, 100, 1, 0, 0}}, "", true, "")
+			x := h.send(V, 5, 1000, 1, true, []int64{400}).Hash
+			h.approve(2, V, x)
+			h.doTx([]pend{{op{Kind: "confirm", Signer: V, Target: V, Hash: x, Pw: pword(1)}, kp{}}, {op{Kind: "approve", Signer: 4, Target: V, Hash: x}, kp{}}})
+			h.doTx([]pend{{op{Kind: "confirm", Signer: V, Target: V, Hash: x, Pw: pword(1)}, kp{}}, {op{Kind: "approve", Signer: 3, Target: V, Hash: x}, kp{}}})
+		}
 		finish(h)
 	}
 	for sc := 0; sc < 4; sc++ { // the limit path of the decorator (live only on the repaired variant)
@@ -942,7 +1340,40 @@ func random(h *hist) {
 		return x, t
 	}
 	nops := 6 + g.Intn(14)
+	fresh := 6
 	for i := 0; i < nops; i++ {
+		if g.Chance(4) && fresh <= 7 { // address rotation of the owner (or of a custodian), mostly with the right proof
+			a := owner
+			if g.Chance(20) {
+				a = 2
+			}
+			if h.rotate(a, fresh, g.Chance(85)).Outcome == "ok" {
+				if a == owner {
+					owner = fresh
+				}
+				fresh++
+			}
+			continue
+		}
+		if g.Chance(6) { // two messages in one transaction: a custody message, then a plain send of the same account
+			var first pend
+			switch g.Intn(4) {
+			case 0:
+				first = h.keyedPend(op{Kind: []string{"add_whitelist", "drop_custodians", "drop_whitelist"}[g.Intn(3)], Signer: owner, Adds: []int{4}}, g.Chance(70))
+			case 1:
+				first = h.keyedPend(op{Kind: "disable_custody", Signer: owner}, false)
+			case 2:
+				first = pend{op{Kind: "custody_send", Signer: owner, To: 5, Amt: uk(10), Pw: sha(pword(1)), Rew: uk(600)}, kp{}}
+			default:
+				first = pend{op{Kind: "bank_send", Signer: other, To: 5, Amt: uk(1)}, kp{}}
+			}
+			second := pend{op{Kind: []string{"bank_send", "multisend"}[g.Intn(2)], Signer: owner, To: []int{5, 4}[g.Intn(2)], Amt: uk(25)}, kp{}}
+			if g.Chance(20) {
+				first, second = second, first
+			}
+			h.doTx([]pend{first, second})
+			continue
+		}
 		switch x := g.Intn(100); {
 		case x < 18: // custody send by an owner
 			s := owner
@@ -1001,7 +1432,7 @@ func random(h *hist) {
 			case "create_custody":
 				o.Set = []uint64{b2u(g.Chance(75)), modes[g.Intn(len(modes))], b2u(g.Chance(30)), b2u(g.Chance(30)), b2u(g.Chance(15))}
 			case "add_custodians", "add_whitelist":
-				o.Adds = [][]int{{4}, {5}, {2, 3}, {}, {signer}}[g.Intn(5)]
+				o.Adds = [][]int{{4}, {5}, {2, 3}, {}, {signer}, {3, 3, 2}, {4, 2, 4}}[g.Intn(7)]
 			case "remove_custodians", "remove_whitelist":
 				o.Rem = []int{2, 3, 4, 5}[g.Intn(4)]
 			case "add_limits":
@@ -1047,7 +1478,7 @@ func main() {
 	w.tok[sha("wrong-pw")] = "Px"
 	w.tok["wrong-pw"] = "px"
 	bals0 := [][]cn{{{"ukex", 1000000}, {"uusd", 50000}, {"uzzz", 100}}, {{"ukex", 1000000}, {"uusd", 50000}}, {{"ukex", 5000}}, {{"ukex", 5000}},
-		{{"ukex", 300}}, {}, {{"ukex", 1000000}}, {}}
+		{{"ukex", 300}}, {}, {}, {}, {{"ukex", 1000000000000}}, {}}
 	for i, b := range bals0 {
 		if len(b) > 0 {
 			if err := app.BankKeeper.MintCoins(base, minttypes.ModuleName, sdkCoins(b)); err != nil {
@@ -1066,10 +1497,11 @@ func main() {
 	var js []interface{}
 	newHist := func(label string) *hist {
 		ctx, _ := base.CacheContext()
-		h := &hist{w: w, ctx: ctx, deco: deco, dist: dist, id: len(cases), label: label, now: 1700000000}
+		h := &hist{w: w, ctx: ctx, deco: deco, dist: dist, id: len(cases), label: label, now: 1700000000, rotated: map[int]bool{}}
 		for i := range h.sec {
 			h.sec[i] = -1
 		}
+		h.registerSecrets()
 		h.prev = w.observe(ctx)
 		return h
 	}
@@ -1080,13 +1512,13 @@ func main() {
 		}
 		cases = append(cases, fmt.Sprintf("C17 %s %s", hx.List(bs), hx.List(h.steps)))
 		js = append(js, map[string]interface{}{"history": h.id, "label": h.label, "initial_balances": bals0[:N],
-			"accounts": "0,1 owners; 2,3,(4) custodians; 4,5 strangers/destinations; 6,7 filler", "ops": h.ops})
+			"accounts": "0,1 owners; 2,3,(4) custodians; 4,5 strangers/destinations; 6,7 fresh addresses (rotation targets); 8,9 filler / fee payer", "ops": h.ops})
 		dist.Inc(fmt.Sprintf("history_len:%02d", len(h.ops)/5*5))
 	}
 	// ---- which variant of the five repaired places does this tree implement? (probe transactions)
 	vr := probe(newHist)
 	dist = hx.Counter{}
-	newHist2 := func(label string) *hist { h := newHist(label); h.dist = dist; return h }
+	newHist2 := func(label string) *hist { h := newHist(label); h.dist = dist; h.fill = h.id % 4; return h }
 	directed(newHist2, finish, vr)
 	nd := len(cases)
 	for hi := 0; hi < *n; hi++ {
@@ -1100,12 +1532,12 @@ func main() {
 	f.WriteString("(* written by /verif/harness/cmd/c17 -- observations of the real code *)\n")
 	f.WriteString("From Sekai Require Import Base.Prelude Model.Custody Model.C17Check.\n")
 	f.WriteString(fmt.Sprintf("Definition minrew : Z := %d.\n", minrew))
-	f.WriteString(fmt.Sprintf("Definition c17_variant : variant := mkV %s %s %s %s %s.\n", hx.B(vr.custOnly), hx.B(vr.lower), hx.B(vr.pwd), hx.B(vr.nilmap), hx.B(vr.limits)))
+	f.WriteString(fmt.Sprintf("Definition c17_variant : variant := mkV %s %s %s %s %s %s.\n", hx.B(vr.custOnly), hx.B(vr.lower), hx.B(vr.pwd), hx.B(vr.nilmap), hx.B(vr.limits), hx.B(vr.rot)))
 	out.WriteFile("pre.v", f.String())
 	out.WriteFile("cases.txt", strings.Join(cases, "\n")+"\n")
 	out.WriteJSON("meta.json", map[string]string{"case_type": "c17_case", "mismatch_fn": "c17_mismatches c17_variant minrew", "violation_fn": "c17_violations"})
 	out.WriteJSON("cases.json", js)
 	out.WriteJSON("dist.json", map[string]interface{}{"seed": seed, "histories": len(js), "directed": nd, "random": *n, "by_kind_and_outcome": dist,
-		"variant": map[string]bool{"votes_by_custodians_only": vr.custOnly, "vote_key_lowercase": vr.lower, "password_compared": vr.pwd, "empty_map_assignment_ok": vr.nilmap, "limits_window": vr.limits}})
+		"variant": map[string]bool{"votes_by_custodians_only": vr.custOnly, "vote_key_lowercase": vr.lower, "password_compared": vr.pwd, "empty_map_assignment_ok": vr.nilmap, "limits_window": vr.limits, "rotation_moves_votes": vr.rot}})
 	fmt.Fprintf(os.Stderr, "c17: %d histories\n", len(js))
 }
